@@ -511,6 +511,18 @@ pub fn lex_menus() -> Vec<(&'static str, Vec<Row>, Vec<char>)> {
             vec![','],
         ),
         (
+            // surfaces that begin with characters some text reader gives a meaning to
+            "special",
+            vec![
+                row("#", 1, 1, 20, "hash"),
+                row("#a", 2, 1, 15, "hash-a"),
+                row("a", 1, 2, 30, "a"),
+                row("\u{FF71}", 2, 2, 12, "halfwidth-a"),
+                row("a#", 1, 1, 18, "a-hash"),
+            ],
+            vec!['#', '\u{FF71}'],
+        ),
+        (
             "extreme",
             vec![
                 row("a", 1, 1, 32767, "a-max"),
